@@ -102,6 +102,11 @@ def gen_cases(rng, h, info, quick):
             lo = [rng.choice([0, -1, rng.randint(-600, 400), -rng.randint(0, 3) * 125]) for _ in range(3)]
             hi = [lo[i] + rng.choice([rng.randint(50, 1500), 1000, 999, 500, 1001]) for i in range(3)]
             lines.append('o_extent\t%d %d %d %d %d %d %d %d %d %d %d' % (ri['row'], *n, rng.randint(0, 99), *lo, *hi))
+    # grids held in ZYX order (fast index along Z), header made from scratch: all three sizes different, two equal, cubic
+    for _ in range(12 if quick else 300):
+        n = rng.choice([[3, 4, 5], [5, 4, 3], [2, 7, 3], [6, 6, 4], [4, 6, 6], [5, 5, 5], [1, 2, 3],
+                        [rng.randint(1, 12), rng.randint(1, 12), rng.randint(1, 12)]])
+        lines.append('o_zyx\t%d %d %d %d %d' % (n[0], n[1], n[2], rng.randint(0, 99), rng.choice([0, 1, 2, 2, 6])))
     return lines, bricks
 
 
